@@ -60,11 +60,11 @@ static unsigned long st[64];
 enum { S_OPS, S_TOPO, S_TOPO_THIS, S_TOPO_DUMMY, S_STUB, S_CALL_STUB, S_CALL_DUMMY, S_CALL_NATIVE, S_RC_OK, S_EINVAL,
        S_ENOSYS, S_OTHERERR, S_HOOKLOG0, S_HOOKLOG1, S_HOOKLOG2, S_SYSLOG0, S_SYSLOGN, S_SET_EMPTY, S_SET_INF,
        S_SET_OUT, S_SET_COVER, S_SET_VALID, S_SET_DISALLOWED, S_FLAG_UNKNOWN, S_POLICY_BAD, S_LIVE, S_LOADCHECK,
-       S_LEN0, S_NULLPTR, S_FALLTHROUGH, S_N };
+       S_LEN0, S_NULLPTR, S_FALLTHROUGH, S_DIRTY_OUT, S_N };
 static const char *st_names[S_N] = { "ops", "topo", "topo_thissystem", "topo_dummy", "stub_tables", "call_stub", "call_dummy",
   "call_native", "rc_ok", "rc_einval", "rc_enosys", "rc_othererr", "hooklog_0", "hooklog_1", "hooklog_2plus", "syslog_0",
   "syslog_nonempty", "set_empty", "set_infinite", "set_out_of_range", "set_covers_topology", "set_valid", "set_disallowed_bits",
-  "flags_unknown_bits", "policy_invalid", "live_roundtrips", "loadchecks", "len_zero", "null_pointer", "enosys_fallthrough" };
+  "flags_unknown_bits", "policy_invalid", "live_roundtrips", "loadchecks", "len_zero", "null_pointer", "enosys_fallthrough", "dirty_output_bitmaps" };
 
 static const char *errname_of(int e) {
   switch (e) {
@@ -462,6 +462,11 @@ static void do_call(const char *entry, const char *sets, unsigned flags, int pol
   int e; for (e = 0; e < NENTRIES; e++) if (!strcmp(entries[e], entry)) break;
   if (e == NENTRIES || !T) { fprintf(fout, "bad-op\n"); return; }
   hwloc_bitmap_t set = parsearg(sets), out = hwloc_bitmap_alloc();
+  /* a getter defines its output: the bitmap handed in is dirty in 3 of 4 calls (reused by the caller), chosen from the op text */
+  { unsigned h = 2166136261u; const char *q; for (q = entry; *q; q++) h = (h ^ (unsigned char) *q) * 16777619u;
+    for (q = sets; *q; q++) h = (h ^ (unsigned char) *q) * 16777619u;
+    h = (h ^ flags) * 16777619u; h ^= h >> 13;
+    if (h & 3) { hwloc_bitmap_set(out, (h >> 2) % 40); hwloc_bitmap_set(out, (h >> 8) % 200); if (h & 0x10000) hwloc_bitmap_set_range(out, 300, -1); st[S_DIRTY_OUT]++; } }
   hwloc_pid_t pid = !strcmp(pids, "self") ? getpid() : !strcmp(pids, "bad") ? BADPID : 0;
   hwloc_membind_policy_t opol = (hwloc_membind_policy_t) 77;
   int rc = 0, isget = 0, haspol = 0, isptr = 0, lastcpu = 0; void *p = NULL;
@@ -522,6 +527,7 @@ static void do_live(const char *subset, unsigned flags) {
   hwloc_bitmap_t s = parsehex(subset), got = hwloc_bitmap_alloc(), raw = hwloc_bitmap_alloc(), last = hwloc_bitmap_alloc();
   char gx[300], rx[300];
   kset("fwd"); slog_reset();
+  hwloc_bitmap_not(got, s); st[S_DIRTY_OUT]++; /* reused output bitmap: everything the binding is not */
   int rc = hwloc_set_cpubind(T, s, (int) flags);
   int rc2 = hwloc_get_cpubind(T, got, (int) flags);
   raw_getaff(raw);
